@@ -102,6 +102,8 @@ def exec_cases():
           'one += two()', 'one = two()', 'one -= id(two()); one', 'x = 1; one *= cnt(x = 5, two()); [x, one]', 't = f() ? one() : two(); t', 'boom = one()', 'boom += one()', 'one += boom()',
           # statements that are a bare provider name (C06/C07: it is evaluated, its failure stops the program)
           'x = 1; boom; x = 2; x', 'boom; y = 5', 'one; two(); 3', '1; boom', 'boom; 1', 'x = 1; one; x', 'nope; 2', "'s'; boom; 3", 'x = one; boom; x',
+          # a chain whose LAST statement has an effect (C07/C06: every statement runs exactly once, the last one included)
+          'a = 1; one()', 'x = 10; y = 1; x += 5', 'one(); two()', 'x = 2; x *= x', 'one(); boom()', 't(); cnt(one())', 'x = 1; y = 2; x <<= y', 'one();', 'x = 1; x += 1;', 'x = 1; x += 1; x += 1', 'two(); one(); one()', 'x = 3; x -= 1; x -= 1;', 'x = 5; one(); x %= 3',
           # membership over elements with effects (C07: every element is evaluated, left to right, before the test)
           'one() in [one(), two(), t()]', '2 in [1, 2, boom()]', 'seen = 2 in [1, 2, boom()]; one()', 'two() in [one(), boom()]', 'one() not in [two(), one(), cnt()]', 'x = 1; 1 in [x = 2, x, 1]; x', 'one() in [cnt(one(), two())]',
           't() && boom()', 'f() || boom()', 't() || f()', 'f() && t() && boom()', '[t() && f(), two()]', 'x = t() || (y = 1) == 1; y',
